@@ -389,6 +389,26 @@ func generate(thorough bool, emit func(kase)) {
 			binary.BigEndian.PutUint16(m[6:], uint16(cnt))
 			emit(kase{Family: "scale:label-chain-x-records", Desc: fmt.Sprint(n), Msg: m, N: n})
 		}
+		// a question name of 127 one-octet labels that are DOTS (the longest legal name; a dot is an octet like any other), then
+		// records whose owner points at it: every record decodes 127 labels that need escaping
+		{
+			m := hdr(1, 0, 0, 0)
+			for i := 0; i < 127; i++ {
+				m = append(m, 1, '.')
+			}
+			m = append(m, 0, 0, 1, 0, 1)
+			cnt := 0
+			for len(m)+16 < n {
+				m = append(m, 0xc0, 12)
+				m = append(m, rrFixed(1, 1, 4)...)
+				m = append(m, 1, 2, 3, 4)
+				cnt++
+			}
+			binary.BigEndian.PutUint16(m[6:], uint16(cnt))
+			if cnt > 0 {
+				emit(kase{Family: "scale:dotted-labels-x-records", Desc: fmt.Sprint(n), Msg: m, N: n})
+			}
+		}
 		// the classic loops, padded to n
 		for _, loop := range [][]byte{{1, 'a', 0xc0, 12}, {0xc0, 12}, {0xc0, 14, 0xc0, 12}, {1, 'a', 1, 'b', 0xc0, 14}} {
 			m := append(hdr(1, 0, 0, 0), loop...)
@@ -605,7 +625,7 @@ func Worker(tier string, shard, n int) {
 }
 
 func Run(r *ev.Run) {
-	r.Rule("grammar-bounded exhaustive enumeration (E1) in 16 single-threaded worker processes under ulimit -v 3 GiB with a 15 s per-case watchdog: (0) header RCODE 0..15 x extended-RCODE octet {0,1,2,15,16,128,255} in an OPT record, with and without an answer; SVCB/HTTPS parameters with every key 0..9/65535 x value length 0..5 x 3 fill bytes, and one record of EVERY type code 0..300 (+4 high codes) with 4 RDATA shapes owned by the queried name (decoded, then consumed by Resolve); (i) every string of <=4 (thorough 5; question position one more) name tokens out of {label 'a', 63-byte label, end, pointer to self / forward / header offset 0 / header offset 11 / question name / middle of the question label / past the end / first earlier token / previous token, 0x40 and 0x80 prefixes, half a pointer} in every name position: question, owner, and inside the RDATA of NS, CNAME, PTR, MX, SOA, SRV, SVCB, HTTPS, NSEC, RRSIG with rdlength true/-1/+1; (ii) for 18 RDATA layouts every truncation (honest and lying rdlength), every byte +-1/+128, rdlength +1/65535; (iii) header counts {0,1,2,65535}x{0,1,2,65535}x{0,1,65535}^2 x 0..3 records present, short headers; (iv) scaling families at n in {64..16384 (thorough 65535)}: pointer chains, n/2 labels, label chain x n/16 records, pointer loops, n/4 parameters. Oracles: returns (watchdog), TotalAlloc delta <= 256KiB+512n+n^2/2, Go type of Data matches Type, and the decoded message served as DoH body to Resolver.Resolve (+Targets) for every name it mentions does not panic. distinct = distinct message byte strings")
+	r.Rule("grammar-bounded exhaustive enumeration (E1) in 16 single-threaded worker processes under ulimit -v 3 GiB with a 15 s per-case watchdog: (0) header RCODE 0..15 x extended-RCODE octet {0,1,2,15,16,128,255} in an OPT record, with and without an answer; SVCB/HTTPS parameters with every key 0..9/65535 x value length 0..5 x 3 fill bytes, and one record of EVERY type code 0..300 (+4 high codes) with 4 RDATA shapes owned by the queried name (decoded, then consumed by Resolve); (i) every string of <=4 (thorough 5; question position one more) name tokens out of {label 'a', 63-byte label, end, pointer to self / forward / header offset 0 / header offset 11 / question name / middle of the question label / past the end / first earlier token / previous token, 0x40 and 0x80 prefixes, half a pointer} in every name position: question, owner, and inside the RDATA of NS, CNAME, PTR, MX, SOA, SRV, SVCB, HTTPS, NSEC, RRSIG with rdlength true/-1/+1; (ii) for 18 RDATA layouts every truncation (honest and lying rdlength), every byte +-1/+128, rdlength +1/65535; (iii) header counts {0,1,2,65535}x{0,1,2,65535}x{0,1,65535}^2 x 0..3 records present, short headers; (iv) scaling families at n in {64..16384 (thorough 65535)}: pointer chains, n/2 labels, label chain x n/16 records, pointer loops, n/4 parameters, a 127-label name of dots x n/16 records. Oracles: returns (watchdog), TotalAlloc delta <= 256KiB+512n+n^2/2, Go type of Data matches Type, and the decoded message served as DoH body to Resolver.Resolve (+Targets) for every name it mentions does not panic. distinct = distinct message byte strings")
 	r.Assume("arbitrary byte noise outside the token grammar is not explored", "allocation measured as runtime TotalAlloc delta with GOMAXPROCS=1 in the worker")
 	generate(r.Thorough(), func(k kase) { r.Eval(k.Family+"|"+string(k.Msg), "") })
 	done, total := workers.Spawn(r, "C12", 3*1024*1024)
